@@ -643,6 +643,345 @@ theorem crash_no_lockout (c : Cyc) (ds : Datastore) (v : View) (h : (c.run ds).1
                     obtain ⟨b', hb'⟩ := hrun
                     rw [hb']
 
+/-! ### No lock-out against any repository that is acceptable before and after the interrupted cycle -/
+
+theorem afterRoot_ts (cfg : Config) (r0 root : Root) (d : Datastore) :
+    (afterRoot cfg r0 root d).ts = if onlineKeysChanged (refRoot d r0) root then .absent else d.ts := by
+  unfold afterRoot
+  have := congrArg (·.1) (gated_trust (cfg := cfg) d)
+  split <;> first | rfl | exact this
+
+theorem afterRoot_snap (cfg : Config) (r0 root : Root) (d : Datastore) :
+    (afterRoot cfg r0 root d).snap = if onlineKeysChanged (refRoot d r0) root then .absent else d.snap := by
+  unfold afterRoot
+  have := congrArg (·.2.1) (gated_trust (cfg := cfg) d)
+  split <;> first | rfl | exact this
+
+/-- "the online keys did not change" is transitive -/
+theorem onlineKeys_unchanged_trans (a b c : Root) (h1 : onlineKeysChanged a b = false) (h2 : onlineKeysChanged b c = false) :
+    onlineKeysChanged a c = false := by
+  simp only [onlineKeysChanged, Bool.or_eq_false_iff, bne_eq_false_iff_eq] at *
+  exact ⟨h1.1.trans h2.1, h1.2.trans h2.2⟩
+
+/-- what a successful cycle shows about the datastore it started from: the stored clock sample is not
+ahead of the clock, and none of the stored documents — as they are once the root phase has run —
+blocks what the cycle came to trust.  (The converse is `cycle_rerun`.) -/
+theorem cycle_unblocked {cfg : Config} {srv : Server} {shipped : Option Root} {a a' : St} {v : View}
+    (h : cycle cfg srv shipped a = (.ok v, a')) :
+    TimeOk cfg a.ds ∧ ∃ r0, shipped = some r0 ∧
+      blocksTs v.root (afterRoot cfg r0 v.root a.ds).ts v.ts = false ∧
+      storedSnapshotBlocks v.root (afterRoot cfg r0 v.root a.ds).snap v.snap = none ∧
+      blocksTgt v.root a.ds.tgt (Tgt.doc v.tgt) = false := by
+  have hcyc := h
+  unfold cycle at h
+  cases h0 : loadRoot cfg srv shipped a with
+  | mk r0r a1 =>
+    rw [h0] at h
+    cases r0r with
+    | error e => simp at h
+    | ok root =>
+      simp only at h
+      cases h1 : loadTimestamp cfg srv root a1 with
+      | mk r1 a2 =>
+        rw [h1] at h
+        cases r1 with
+        | error e => simp at h
+        | ok ts =>
+          simp only at h
+          cases h2 : loadSnapshot cfg srv root ts a2 with
+          | mk r2 a3 =>
+            rw [h2] at h
+            cases r2 with
+            | error e => simp at h
+            | ok sn =>
+              simp only at h
+              cases h3 : loadTargets cfg srv root sn a3 with
+              | mk r3 a4 =>
+                rw [h3] at h
+                cases r3 with
+                | error e => simp at h
+                | ok t =>
+                  simp only [Prod.mk.injEq, Except.ok.injEq] at h
+                  obtain ⟨hv, _⟩ := h
+                  subst hv
+                  have ok1 := loadRoot_ok h0
+                  have ok2 := loadTimestamp_ok h1
+                  obtain ⟨r0, hr0, _, _, _, hsame, hdiff⟩ := ok1.shipped
+                  have clock0 : TimeOk cfg a.ds := fun hs t ht => by
+                    have := ok1.clockOk hs t ht; omega
+                  obtain ⟨r0', l, hs, hl⟩ := loadRoot_rerun (cfg := cfg) (srv := srv) a h0 clock0
+                  rw [hr0] at hs; simp only [Option.some.injEq] at hs; subst hs
+                  have ea1 : a1.ds = afterRoot cfg r0 root a.ds := by
+                    rw [h0] at hl
+                    simp only [Prod.mk.injEq, Except.ok.injEq, true_and] at hl
+                    rw [hl]
+                  have k3 := loadSnapshot_keeps (cfg := cfg) (srv := srv) (root := root) (ts := ts) a2
+                  rw [h2] at k3
+                  have a1tgt : a1.ds.tgt = a.ds.tgt := by
+                    cases hk : onlineKeysChanged (refRoot a.ds r0) root with
+                    | false => exact congrArg (·.2.2) (hsame hk)
+                    | true => exact (hdiff hk).2.2
+                  have a3tgt : a3.ds.tgt = a.ds.tgt := (k3.2.2.trans ok2.storedTgt).trans a1tgt
+                  refine ⟨clock0, r0, hr0, ?_, ?_, ?_⟩
+                  · have := loadTimestamp_unblocked h1
+                    rw [ea1] at this; exact this
+                  · have := loadSnapshot_unblocked h2
+                    rw [ok2.storedSnap, ea1] at this; exact this
+                  · have := loadTargets_unblocked h3
+                    rw [a3tgt] at this; exact this
+
+/-- where a crash state of a successful cycle lies between the datastore the cycle started from and the
+one it ends with: before the new root is recorded the root and targets slots are the old ones and the
+timestamp / snapshot slots are the old ones or already removed; from then on every slot holds what the
+root phase left or what the cycle stores.  The last component describes the final datastore. -/
+theorem crash_shape (c : Cyc) (ds : Datastore) (v : View) (r0 : Root) (hr0 : c.shipped = some r0)
+    (h : (c.run ds).1 = .ok v) :
+    (∀ d ∈ crashStates c ds,
+      (d.time = ds.time ∨ d.time = some c.cfg.now) ∧
+      ((d.root = ds.root ∧ d.tgt = ds.tgt ∧ (d.ts = ds.ts ∨ d.ts = .absent) ∧ (d.snap = ds.snap ∨ d.snap = .absent)) ∨
+       (d.root = .doc v.root ∧
+        (d.ts = (if onlineKeysChanged (refRoot ds r0) v.root then .absent else ds.ts) ∨ d.ts = .doc v.ts) ∧
+        (d.snap = (if onlineKeysChanged (refRoot ds r0) v.root then .absent else ds.snap) ∨ d.snap = .doc v.snap) ∧
+        (d.tgt = ds.tgt ∨ d.tgt = .doc (Tgt.doc v.tgt))))) ∧
+    ((c.run ds).2.ds.root = .doc v.root ∧ (c.run ds).2.ds.ts = .doc v.ts ∧ (c.run ds).2.ds.snap = .doc v.snap ∧
+      (c.run ds).2.ds.tgt = .doc (Tgt.doc v.tgt)) := by
+  unfold Cyc.run at h ⊢
+  cases hc : cycle c.cfg c.srv c.shipped ⟨ds, []⟩ with
+  | mk res a4 =>
+    rw [hc] at h
+    simp only at h
+    subst h
+    have hcyc := hc
+    unfold cycle at hc
+    cases h0 : loadRoot c.cfg c.srv c.shipped ⟨ds, []⟩ with
+    | mk r0r a1 =>
+      rw [h0] at hc
+      cases r0r with
+      | error e => simp at hc
+      | ok root =>
+        simp only at hc
+        cases h1 : loadTimestamp c.cfg c.srv root a1 with
+        | mk r1 a2 =>
+          rw [h1] at hc
+          cases r1 with
+          | error e => simp at hc
+          | ok ts =>
+            simp only at hc
+            cases h2 : loadSnapshot c.cfg c.srv root ts a2 with
+            | mk r2 a3 =>
+              rw [h2] at hc
+              cases r2 with
+              | error e => simp at hc
+              | ok sn =>
+                simp only at hc
+                cases h3 : loadTargets c.cfg c.srv root sn a3 with
+                | mk r3 a4' =>
+                  rw [h3] at hc
+                  cases r3 with
+                  | error e => simp at hc
+                  | ok t =>
+                    simp only [Prod.mk.injEq, Except.ok.injEq] at hc
+                    obtain ⟨hv, ha4⟩ := hc
+                    subst hv; subst ha4
+                    have ok1 := loadRoot_ok h0
+                    have ok2 := loadTimestamp_ok h1
+                    have ok3 := loadSnapshot_ok h2
+                    obtain ⟨r0', hr0', _, _, _, hsame, hdiff⟩ := ok1.shipped
+                    rw [hr0] at hr0'; simp only [Option.some.injEq] at hr0'; subst hr0'
+                    have clock0 : TimeOk c.cfg ds := fun hs t ht => by
+                      have := ok1.clockOk hs t ht; omega
+                    have k3 := loadSnapshot_keeps (cfg := c.cfg) (srv := c.srv) (root := root) (ts := ts) a2
+                    rw [h2] at k3
+                    have k4 := loadTargets_keeps (cfg := c.cfg) (srv := c.srv) (root := root) (snap := sn) a3
+                    rw [h3] at k4
+                    have st4 := loadTargets_ok_stored h3
+                    have root2 : a2.ds.root = a1.ds.root := loadTimestamp_ok_root h1
+                    have a1tgt : a1.ds.tgt = ds.tgt := by
+                      cases hk : onlineKeysChanged (refRoot ds r0) root with
+                      | false => exact congrArg (·.2.2) (hsame hk)
+                      | true => exact (hdiff hk).2.2
+                    have a3snap : a3.ds.snap = .doc sn := ok3.storedSnap
+                    have a3tgt : a3.ds.tgt = ds.tgt := (k3.2.2.trans ok2.storedTgt).trans a1tgt
+                    obtain ⟨r0', l, hs, hl⟩ := loadRoot_rerun (cfg := c.cfg) (srv := c.srv) ⟨ds, []⟩ h0 clock0
+                    rw [hr0] at hs; simp only [Option.some.injEq] at hs; subst hs
+                    have ea1 : a1.ds = afterRoot c.cfg r0 root ds := by
+                      rw [h0] at hl
+                      simp only [Prod.mk.injEq, Except.ok.injEq, true_and] at hl
+                      rw [hl]
+                    have tsa : a1.ds.ts = if onlineKeysChanged (refRoot ds r0) root then .absent else ds.ts := by
+                      rw [ea1]; exact afterRoot_ts _ _ _ _
+                    have sna : a1.ds.snap = if onlineKeysChanged (refRoot ds r0) root then .absent else ds.snap := by
+                      rw [ea1]; exact afterRoot_snap _ _ _ _
+                    refine ⟨?_, ?_⟩
+                    · intro d hd
+                      simp only [crashStates, Cyc.run, hcyc, List.mem_cons] at hd
+                      rcases hd with rfl | hd
+                      · exact ⟨Or.inl rfl, Or.inl ⟨rfl, rfl, Or.inl rfl, Or.inl rfl⟩⟩
+                      · have kt := cycle_keepsTime (cfg := c.cfg) (srv := c.srv) c.shipped ⟨ds, []⟩
+                        rw [hcyc] at kt
+                        have htime : d.time = ds.time ∨ d.time = some c.cfg.now := by
+                          rcases kt.1 d hd with hh | hh
+                          · simp [St.states] at hh
+                          · exact hh
+                        refine ⟨htime, ?_⟩
+                        have g4 := loadTargets_grows (cfg := c.cfg) (srv := c.srv) root sn a3
+                        rw [h3] at g4
+                        have g3 := loadSnapshot_grows (cfg := c.cfg) (srv := c.srv) root ts a2
+                        rw [h2] at g3
+                        have g2 := loadTimestamp_grows (cfg := c.cfg) (srv := c.srv) root a1
+                        rw [h1] at g2
+                        have g1 := loadRoot_grows2 (cfg := c.cfg) (srv := c.srv) c.shipped ⟨ds, []⟩
+                        rw [h0] at g1
+                        have B1 : ∀ x : Datastore, x.trust = a1.ds.trust → (x.root = .doc root ∧ (x.ts = a1.ds.ts ∨ x.ts = .doc ts) ∧ (x.snap = a1.ds.snap ∨ x.snap = .doc sn) ∧ (x.tgt = ds.tgt ∨ x.tgt = .doc (Tgt.doc t))) :=
+                          fun x e => ⟨(congrArg (·.2.2.2) e).trans ok1.recorded, Or.inl (congrArg (·.1) e), Or.inl (congrArg (·.2.1) e), Or.inl ((congrArg (·.2.2.1) e).trans a1tgt)⟩
+                        have B2 : ∀ x : Datastore, x.trust = a2.ds.trust → (x.root = .doc root ∧ (x.ts = a1.ds.ts ∨ x.ts = .doc ts) ∧ (x.snap = a1.ds.snap ∨ x.snap = .doc sn) ∧ (x.tgt = ds.tgt ∨ x.tgt = .doc (Tgt.doc t))) :=
+                          fun x e => ⟨((congrArg (·.2.2.2) e).trans root2).trans ok1.recorded, Or.inr ((congrArg (·.1) e).trans ok2.storedTs),
+                            Or.inl ((congrArg (·.2.1) e).trans ok2.storedSnap), Or.inl (((congrArg (·.2.2.1) e).trans ok2.storedTgt).trans a1tgt)⟩
+                        have B3 : ∀ x : Datastore, x.trust = a3.ds.trust → (x.root = .doc root ∧ (x.ts = a1.ds.ts ∨ x.ts = .doc ts) ∧ (x.snap = a1.ds.snap ∨ x.snap = .doc sn) ∧ (x.tgt = ds.tgt ∨ x.tgt = .doc (Tgt.doc t))) :=
+                          fun x e => ⟨(((congrArg (·.2.2.2) e).trans k3.2.1).trans root2).trans ok1.recorded, Or.inr (((congrArg (·.1) e).trans k3.1).trans ok2.storedTs),
+                            Or.inr ((congrArg (·.2.1) e).trans a3snap), Or.inl ((congrArg (·.2.2.1) e).trans a3tgt)⟩
+                        have B4 : ∀ x : Datastore, x.trust = a4'.ds.trust → (x.root = .doc root ∧ (x.ts = a1.ds.ts ∨ x.ts = .doc ts) ∧ (x.snap = a1.ds.snap ∨ x.snap = .doc sn) ∧ (x.tgt = ds.tgt ∨ x.tgt = .doc (Tgt.doc t))) :=
+                          fun x e => ⟨((((congrArg (·.2.2.2) e).trans k4.2.2.1).trans k3.2.1).trans root2).trans ok1.recorded,
+                            Or.inr ((((congrArg (·.1) e).trans k4.1).trans k3.1).trans ok2.storedTs),
+                            Or.inr (((congrArg (·.2.1) e).trans k4.2.1).trans a3snap), Or.inr ((congrArg (·.2.2.1) e).trans st4)⟩
+                        have fin : ∀ x : Datastore, (x.root = .doc root ∧ (x.ts = a1.ds.ts ∨ x.ts = .doc ts) ∧ (x.snap = a1.ds.snap ∨ x.snap = .doc sn) ∧ (x.tgt = ds.tgt ∨ x.tgt = .doc (Tgt.doc t))) →
+                            (x.root = .doc root ∧
+                              (x.ts = (if onlineKeysChanged (refRoot ds r0) root then .absent else ds.ts) ∨ x.ts = .doc ts) ∧
+                              (x.snap = (if onlineKeysChanged (refRoot ds r0) root then .absent else ds.snap) ∨ x.snap = .doc sn) ∧
+                              (x.tgt = ds.tgt ∨ x.tgt = .doc (Tgt.doc t))) := by
+                          intro x hx
+                          rw [tsa, sna] at hx
+                          exact hx
+                        rcases g4 d hd with hd3 | e | e
+                        · rcases g3 d hd3 with hd2 | e | e
+                          · rcases g2 d hd2 with hd1 | e | e
+                            · rcases g1 d hd1 with hh | e | e | ⟨_, e1, e2, e3, e4⟩
+                              · simp [St.states] at hh
+                              · exact Or.inl ⟨congrArg (·.2.2.2) e, congrArg (·.2.2.1) e, Or.inl (congrArg (·.1) e), Or.inl (congrArg (·.2.1) e)⟩
+                              · exact Or.inr (fin d (B1 d e))
+                              · exact Or.inl ⟨e2, e1, e3, e4⟩
+                            · exact Or.inr (fin d (B1 d e))
+                            · exact Or.inr (fin d (B2 d e))
+                          · exact Or.inr (fin d (B2 d e))
+                          · exact Or.inr (fin d (B3 d e))
+                        · exact Or.inr (fin d (B3 d e))
+                        · exact Or.inr (fin d (B4 d e))
+                    · exact ⟨(((k4.2.2.1).trans k3.2.1).trans root2).trans ok1.recorded, ((k4.1).trans k3.1).trans ok2.storedTs,
+                        (k4.2.1).trans a3snap, st4⟩
+
+/-- **C15.b, any later repository (no lock-out in general).** Let a cycle `c1` succeed from `ds`, and let
+`c2` be any later cycle of the same client (same shipped root, clock not before `c1`'s) — against any
+repository — that is acceptable both to a client that never started `c1` and to one that completed it:
+`c2` succeeds from `ds` and from the datastore `c1` ends with, with view `v2`.  Then `c2` succeeds, with
+the same view, from EVERY datastore `c1` can leave behind when it is cut short.  An interruption never
+makes the client refuse a repository that it accepts before and after the interrupted update. -/
+theorem crash_no_lockout_any_repository (c1 c2 : Cyc) (ds : Datastore) (v1 v2 : View)
+    (hsh : c2.shipped = c1.shipped) (hnow : c1.cfg.now ≤ c2.cfg.now)
+    (h1 : (c1.run ds).1 = .ok v1)
+    (h2 : (c2.run ds).1 = .ok v2) (h2f : (c2.run (c1.run ds).2.ds).1 = .ok v2) :
+    ∀ d ∈ crashStates c1 ds, (c2.run d).1 = .ok v2 := by
+  intro d hd
+  -- what c2's two successes say about `ds` and about the final datastore of c1
+  have e2 : cycle c2.cfg c2.srv c2.shipped ⟨ds, []⟩ = (.ok v2, (c2.run ds).2) := by
+    unfold Cyc.run at h2 ⊢; rw [← h2]
+  have e2f : cycle c2.cfg c2.srv c2.shipped ⟨(c1.run ds).2.ds, []⟩ = (.ok v2, (c2.run (c1.run ds).2.ds).2) := by
+    unfold Cyc.run at h2f ⊢; rw [← h2f]
+  obtain ⟨t0, r0, hr0, pts, psn, ptg⟩ := cycle_unblocked e2
+  obtain ⟨tf, r0', hr0', fts, fsn, ftg⟩ := cycle_unblocked e2f
+  rw [hr0] at hr0'; simp only [Option.some.injEq] at hr0'; subst hr0'
+  simp only at pts psn ptg fts fsn ftg t0 tf
+  have hr1 : c1.shipped = some r0 := by rw [← hsh]; exact hr0
+  obtain ⟨shape, ffin⟩ := crash_shape c1 ds v1 r0 hr1 h1
+  obtain ⟨htime, hshape⟩ := shape d hd
+  obtain ⟨froot, fts', fsn', ftg'⟩ := ffin
+  rw [afterRoot_ts] at pts fts
+  rw [afterRoot_snap] at psn fsn
+  have hrf : refRoot (c1.run ds).2.ds r0 = v1.root := by simp [refRoot, froot]
+  rw [hrf, fts'] at fts
+  rw [hrf, fsn'] at fsn
+  rw [ftg'] at ftg
+  -- the clock
+  have htimeOk : TimeOk c2.cfg d := by
+    intro hs t ht
+    rcases htime with e | e
+    · exact t0 hs t (e ▸ ht)
+    · rw [e] at ht; simp only [Option.some.injEq] at ht; subst ht; omega
+  have hrun := cycle_rerun (cfg := c2.cfg) (srv := c2.srv) (shipped := c2.shipped) (v := v2) ⟨d, []⟩ e2 htimeOk
+    (by
+      intro r0' hs'
+      rw [hr0] at hs'; simp only [Option.some.injEq] at hs'; subst hs'
+      show blocksTs v2.root (afterRoot c2.cfg r0 v2.root d).ts v2.ts = false
+      rw [afterRoot_ts]
+      rcases hshape with ⟨hr, _, hts, _⟩ | ⟨hr, hts, _, _⟩
+      · have : refRoot d r0 = refRoot ds r0 := by simp [refRoot, hr]
+        rw [this]
+        cases hk : onlineKeysChanged (refRoot ds r0) v2.root with
+        | true => rfl
+        | false =>
+          rw [hk] at pts
+          simp only [Bool.false_eq_true, ↓reduceIte] at pts ⊢
+          rcases hts with e | e
+          · rw [e]; exact pts
+          · rw [e]; rfl
+      · have : refRoot d r0 = v1.root := by simp [refRoot, hr]
+        rw [this]
+        cases hk : onlineKeysChanged v1.root v2.root with
+        | true => rfl
+        | false =>
+          rw [hk] at fts
+          simp only [Bool.false_eq_true, ↓reduceIte] at fts ⊢
+          rcases hts with e | e
+          · rw [e]
+            cases hk1 : onlineKeysChanged (refRoot ds r0) v1.root with
+            | true => rfl
+            | false =>
+              simp only [Bool.false_eq_true, ↓reduceIte]
+              have := onlineKeys_unchanged_trans _ _ _ hk1 hk
+              rw [this] at pts
+              simpa using pts
+          · rw [e]; exact fts)
+    (by
+      intro r0' hs'
+      rw [hr0] at hs'; simp only [Option.some.injEq] at hs'; subst hs'
+      rw [afterRoot_snap]
+      rcases hshape with ⟨hr, _, _, hsn⟩ | ⟨hr, _, hsn, _⟩
+      · have : refRoot d r0 = refRoot ds r0 := by simp [refRoot, hr]
+        rw [this]
+        cases hk : onlineKeysChanged (refRoot ds r0) v2.root with
+        | true => rfl
+        | false =>
+          rw [hk] at psn
+          simp only [Bool.false_eq_true, ↓reduceIte] at psn ⊢
+          rcases hsn with e | e
+          · rw [e]; exact psn
+          · rw [e]; rfl
+      · have : refRoot d r0 = v1.root := by simp [refRoot, hr]
+        rw [this]
+        cases hk : onlineKeysChanged v1.root v2.root with
+        | true => rfl
+        | false =>
+          rw [hk] at fsn
+          simp only [Bool.false_eq_true, ↓reduceIte] at fsn ⊢
+          rcases hsn with e | e
+          · rw [e]
+            cases hk1 : onlineKeysChanged (refRoot ds r0) v1.root with
+            | true => rfl
+            | false =>
+              simp only [Bool.false_eq_true, ↓reduceIte]
+              have := onlineKeys_unchanged_trans _ _ _ hk1 hk
+              rw [this] at psn
+              simpa using psn
+          · rw [e]; exact fsn)
+    (by
+      show blocksTgt v2.root d.tgt (Tgt.doc v2.tgt) = false
+      rcases hshape with ⟨_, e, _, _⟩ | ⟨_, _, _, e | e⟩
+      · rw [e]; exact ptg
+      · rw [e]; exact ptg
+      · rw [e]; exact ftg)
+  obtain ⟨b', hb'⟩ := hrun
+  unfold Cyc.run
+  rw [hb']
+
 /-- a complete, valid little repository: `crash_no_lockout`'s hypothesis is satisfiable, and the
 conclusion is checked by evaluation on all of its crash states -/
 def rootC : Root := ⟨1, 100, false, [1, 2, 3, 4], some ⟨[1], 1⟩, some ⟨[3], 1⟩, some ⟨[4], 1⟩, some ⟨[2], 1⟩, 11, [⟨1, some 1, 11⟩]⟩
@@ -657,6 +996,20 @@ def succeeds (r : Except Err View × St) : Bool := match r.1 with | .ok _ => tru
 
 example : succeeds (cycC.run {}) = true ∧ (crashStates cycC {}).length = 9 ∧
     (crashStates cycC {}).all (fun d => succeeds (cycC.run d)) = true := by decide
+
+/-- a newer state of the same repository: the hypotheses of `crash_no_lockout_any_repository` are
+satisfiable (it is accepted before and after `cycC`), and the conclusion is checked by evaluation on all
+nine crash states of `cycC` -/
+def tgD : TargetsDoc := ⟨8, 100, [(0, ⟨5, 77⟩)], none, 24, [⟨4, some 4, 24⟩]⟩
+def snD : Snapshot := ⟨7, 100, [(.targets, ⟨8, none, none⟩)], 23, [⟨3, some 3, 23⟩]⟩
+def tsD : Timestamp := ⟨6, 100, some ⟨7, none, none⟩, 22, [⟨2, some 2, 22⟩]⟩
+def cycD : Cyc := ⟨⟨⟨100, 100, 100, 100, 8⟩, true, 5⟩,
+  [(.timestamp, .file ⟨.timestamp tsD, some 10, 0, .none⟩), (.snapshot none, .file ⟨.snapshot snD, some 10, 0, .none⟩),
+   (.targets none, .file ⟨.targets tgD, some 10, 0, .none⟩)], some rootC⟩
+
+example : cycD.shipped = cycC.shipped ∧ cycC.cfg.now ≤ cycD.cfg.now ∧ succeeds (cycC.run {}) = true ∧
+    succeeds (cycD.run {}) = true ∧ succeeds (cycD.run (cycC.run {}).2.ds) = true ∧
+    (crashStates cycC {}).all (fun d => succeeds (cycD.run d)) = true := by decide
 
 /-! ### The original `Datastore::create` (truncate, then write) loses the protection
 
